@@ -17,7 +17,7 @@ _uid = itertools.count()
 class Universe:
     """classes 0=Leaf, 1=Mid, 2=Top with random nested/ref choices and renames; real HybridClass classes + the model's spec"""
 
-    def __init__(self, r, module_ns=None):
+    def __init__(self, r, module_ns=None, force=None):
         xo = common.import_xobjects()
         self.r = r
         uid = next(_uid)
@@ -39,8 +39,9 @@ class Universe:
         Leaf = type(f"HLeaf{uid}", (xo.HybridClass,), d)
         self.spec.append((leaf_fields, ren0))
         self.classes.append(Leaf)
-        k1 = r.choice(["N", "R"])
-        k1b = r.choice(["N", "R", None])
+        force = force or {}
+        k1 = force.get("k1") or r.choice(["N", "R"])
+        k1b = force["k1b"] if "k1b" in force else r.choice(["N", "R", None])
         f = {"k": num(1, "k"), "leaf": Leaf if k1 == "N" else xo.Ref(Leaf)}
         fields = [("k", "n", None), ("leaf", k1, 0)]
         ren = {}
@@ -54,8 +55,8 @@ class Universe:
         Mid = type(f"HMid{uid}", (xo.HybridClass,), d)
         self.spec.append((fields, ren))
         self.classes.append(Mid)
-        k2 = r.choice(["N", "R"])
-        k3 = r.choice(["N", "R"])
+        k2 = force.get("k2") or r.choice(["N", "R"])
+        k3 = force.get("k3") or r.choice(["N", "R"])
         ren2 = {"s": "ess"} if r.random() < 0.5 else {}
         if r.random() < 0.5:
             ren2["mid"] = "middle"
@@ -115,11 +116,11 @@ def plain_default(U, ci):
 
 
 class Case:
-    def __init__(self, r, fails, tags):
+    def __init__(self, r, fails, tags, force=None):
         xo = common.import_xobjects()
         self.xo = xo
         self.r, self.fails, self.tags = r, fails, tags
-        self.U = Universe(r)
+        self.U = Universe(r, force=force)
         self.ops, self.exp = [self.U.line()], ["ok"]
         self.ctxs = [xo.ContextCpu(), xo.ContextCpu()]
         self.bufs = []
@@ -182,10 +183,11 @@ class Case:
         return hn, obj, ci, n, k, c
 
     # ------------------------------------------------------------------ operations
-    def op_new(self, ci=None):
+    def op_new(self, ci=None, bi=None, given=None):
+        """given: {xo field name: handle name} for compound fields that must take that dressed object"""
         r, U = self.r, self.U
         ci = r.choice([0, 1, 1, 2, 2, 3]) if ci is None else ci
-        bi = r.randrange(3)
+        bi = r.randrange(3) if bi is None else bi
         kw, words = {}, []
         for n, k, c in U.spec[ci][0]:
             py = U.pyname(ci, n)
@@ -193,16 +195,19 @@ class Case:
                 v = self.num_value()
                 kw[py] = v
                 words.append(f"{py}=n{v}")
+            elif given and n in given:
+                kw[py] = self.handles[given[n]]
+                words.append(f"{py}=i{given[n]}")
             else:
                 cands = self.insts(c)
                 ch = r.random()
-                if cands and ch < 0.6:
+                if cands and ch < 0.6 and given is None:
                     hn, inst = r.choice(cands)
                     kw[py] = inst
                     words.append(f"{py}=i{hn}")
                 elif k == "N":
                     kw[py] = plain_default(U, c)
-                elif ch < 0.8:
+                elif ch < 0.8 or given is not None:
                     kw[py] = None
                     words.append(f"{py}=none")
         if ci in U.leaflike:
@@ -226,8 +231,8 @@ class Case:
             self.exp.append("err " + type(ex).__name__)
             self.fail("C18:constructor-raises:" + type(ex).__name__, f"{U.classes[ci].__name__}({ {k: (v if not hasattr(v, '_xobject') else '<inst>') for k, v in kw.items()} }): {str(ex)[:160]}")
 
-    def op_get(self):
-        p = self.pick()
+    def op_get(self, target=None):
+        p = self.pick() if target is None else self.target(*target)
         if p is None:
             return
         hn, obj, ci, n, k, c = p
@@ -249,16 +254,24 @@ class Case:
             self.exp.append(f"num {int(v)}")
         self.tags["get." + k] += 1
 
-    def op_set(self):
+    def target(self, hn, n):
+        obj = self.handles[hn]
+        ci = self.U.cls_index(obj)
+        n, k, c = [f for f in self.U.spec[ci][0] if f[0] == n][0]
+        return hn, obj, ci, n, k, c
+
+    def op_set(self, target=None, source=None):
         cands = self.insts()
         if not cands:
             return
         r, U = self.r, self.U
-        hn, obj, ci, n, k, c = self.pick()
+        hn, obj, ci, n, k, c = self.pick() if target is None else self.target(*target)
         py = U.pyname(ci, n)
         if k == "n":
             v = self.num_value()
             word, val = f"n{v}", v
+        elif source is not None:
+            word, val = f"i{source}", self.handles[source]
         else:
             srcs = self.insts(c)
             if k == "R" and (not srcs or r.random() < 0.25):
@@ -280,6 +293,39 @@ class Case:
         except Exception as ex:
             self.exp.append("err " + type(ex).__name__)
             self.fail("C18:set-raises:" + type(ex).__name__, f"{hn}.{py} = {word}: {str(ex)[:160]}")
+
+    def op_alias(self, target=None):
+        """x = obj.f (a nested part); obj.f = x: afterwards two dressed objects (x and the new obj.f) dress the same memory"""
+        r, U = self.r, self.U
+        cands = [(n, o) for n, o in self.insts() if any(k == "N" for _, k, _ in U.spec[U.cls_index(o)][0])]
+        if not cands:
+            return
+        if target is not None:
+            hn, obj, ci, n, k, c = self.target(*target)
+        else:
+            hn, obj = r.choice(cands)
+            ci = U.cls_index(obj)
+            n, k, c = r.choice([f for f in U.spec[ci][0] if f[1] == "N"])
+        py = U.pyname(ci, n)
+        try:
+            v = getattr(obj, py)
+        except Exception:
+            return
+        if not hasattr(v, "_xobject"):
+            return
+        name = self.new_name()
+        self.ops.append(f"get {name} {hn} {py}")
+        self.handles[name] = v
+        self.exp.append(self.desc(v))
+        self.ops.append(f"set {hn} {py} i{name}")
+        self.last_target = obj
+        try:
+            setattr(obj, py, v)
+            self.exp.append("ok")
+            self.tags["alias"] += 1
+        except Exception as ex:
+            self.exp.append("err " + type(ex).__name__)
+            self.fail("C18:set-raises:" + type(ex).__name__, f"{hn}.{py} = {hn}.{py}: {str(ex)[:160]}")
 
     def op_copy(self):
         cands = self.insts()
@@ -537,12 +583,36 @@ def dict_ops(c, r, lines, expect, ctxs):
         ctxs.append(ctx)
 
 
+def corpus_history(r, fails, tags):
+    """minimised past finding (O-31): a reference changed through one of two dressed objects of the same memory"""
+    c = Case(r, fails, tags, force={"k1": "R", "k1b": None, "k2": "N", "k3": "R"})
+    steps = [("op_new", dict(ci=0, bi=0)), ("op_new", dict(ci=0, bi=0)),
+             ("op_new", dict(ci=1, bi=0, given={"leaf": "H1"})),
+             ("op_new", dict(ci=2, bi=0, given={"mid": "H3"})),
+             ("op_alias", dict(target=("H4", "mid"))),             # H5 = H4.mid ; H4.mid = H5
+             ("op_set", dict(target=("H5", "leaf"), source="H2")), # through the earlier object
+             ("op_get", dict(target=("H4", "mid"))),               # H6 = H4.mid (the current one)
+             ("op_get", dict(target=("H6", "leaf"))),
+             ("op_set", dict(target=("H6", "leaf"), source="H1")),
+             ("op_get", dict(target=("H5", "leaf")))]
+    for name, kw in steps:
+        before = len(c.ops)
+        c.last_target = None
+        try:
+            getattr(c, name)(**kw)
+        except KeyError:
+            break
+        if len(c.ops) > before and not c.check_mirror(c.ops[-1]):
+            break
+    return c
+
+
 def run_history(r, fails, tags, n_ops):
     c = Case(r, fails, tags)
     c.op_new(0)
     c.op_new(0)
     for _ in range(n_ops):
-        k = r.choice(["new", "new", "get", "get", "set", "set", "set", "copy", "move", "py"])
+        k = r.choice(["new", "new", "get", "get", "set", "set", "set", "set", "alias", "copy", "move", "py"])
         before = len(c.ops)
         c.last_target = None
         getattr(c, "op_" + k)()
@@ -557,8 +627,8 @@ def run_all(tier, seed, extra=None):
     fails, tags = [], collections.Counter()
     n_hist = {"quick": 40, "thorough": 1200}[tier]
     cases, expects, ctxs = [], [], []
-    for _ in range(n_hist):
-        c = run_history(r, fails, tags, r.choice([8, 14, 24]))
+    for hi in range(n_hist):
+        c = corpus_history(r, fails, tags) if hi == 0 else run_history(r, fails, tags, r.choice([8, 14, 24]))
         if extra:
             extra(c, r)
         cases.append(c.ops)
